@@ -516,6 +516,42 @@ func ruleDoUniqueIndex(c *Ctx, r *R) {
 				}
 				continue
 			}
+			// eachInOrder(n, func(i int) error { f(i); return nil }): the index is the parameter of a literal that a helper of the
+			// package calls, once, in its own counting loop - the loop is judged there, under the guards of the helper's call
+			if prm, isP := idx.(*ssa.Parameter); isP && prm.Parent() != nil && prm.Parent().Parent() == im.api {
+				lit := prm.Parent()
+				j := -1
+				for k, q := range lit.Params {
+					if q == prm {
+						j = k
+					}
+				}
+				instrs(im.api, func(_ *ssa.BasicBlock, _ int, in ssa.Instruction) {
+					hc, isCall := in.(*ssa.Call)
+					if !isCall {
+						return
+					}
+					h := staticCallee(&hc.Call)
+					if h == nil || h.Blocks == nil || rootFn(origin(h)).Pkg != rootFn(im.api).Pkg {
+						return
+					}
+					for ai, a := range hc.Call.Args {
+						if literalOf(a, im.api) != lit || !onlyCallsParam(h, ai) || ai >= len(origin(h).Params) {
+							continue
+						}
+						var stepCalls []*ssa.Call
+						for _, ref := range refsOf(origin(h).Params[ai]) {
+							if sc, isSC := ref.(*ssa.Call); isSC && sc.Call.Value == ssa.Value(origin(h).Params[ai]) {
+								stepCalls = append(stepCalls, sc)
+							}
+						}
+						if len(stepCalls) == 1 && j >= 0 && j < len(stepCalls[0].Call.Args) {
+							idx = stepCalls[0].Call.Args[j]
+							d = deepInstr{in: stepCalls[0], site: hc, calls: []*ssa.Call{hc}}
+						}
+					}
+				})
+			}
 			phi, ok := idx.(*ssa.Phi)
 			if !ok {
 				continue
@@ -1050,10 +1086,32 @@ func ruleMapPositional(c *Ctx, r *R) {
 				bad = base + " is indexed by " + path(ia.Index) + " instead of " + iP.Name()
 				continue
 			}
-			if strings.HasSuffix(base, "in") {
+			// by role, whatever the names: the input is Map's slice parameter, the output the slice Map makes
+			role := ""
+			{
+				v := resolveVal(argOf(ia.X, di.calls))
+				if ld, isLd := v.(*ssa.UnOp); isLd && ld.Op == token.MUL {
+					if cell := cellOf(ld.X); cell != nil && cell.Parent() == fn {
+						if sts := storesTo(cell); len(sts) == 1 {
+							v = resolveVal(sts[0].Val)
+						}
+					}
+				}
+				switch x := v.(type) {
+				case *ssa.Parameter:
+					if _, isSl := x.Type().Underlying().(*types.Slice); isSl && x.Parent() == fn {
+						role = "in"
+					}
+				case *ssa.MakeSlice:
+					if x.Parent() == fn {
+						role = "out"
+					}
+				}
+			}
+			if strings.HasSuffix(base, "in") || role == "in" {
 				inIdx = true
 			}
-			if strings.HasSuffix(base, "out") {
+			if strings.HasSuffix(base, "out") || role == "out" {
 				// must be stored to
 				for _, ref := range *ia.Referrers() {
 					if _, ok := ref.(*ssa.Store); ok {
